@@ -504,13 +504,8 @@ Qed.
 
 (** * Restart *)
 
-(** What a shard has applied after: a first lifetime of [k1] STOREs, a restart that recovers
-    every id of the first lifetime from the WAL, and [k2] further STOREs. *)
-Definition restart_history (sh : N) (k1 : nat) (rs1 : list N) (k2 : nat) (rs2 : list N) : list N :=
-  fst (lifetime sh (fst (lifetime sh [] k1 rs1)) k2 rs2).
-
 Lemma lifetime_fresh : forall sh k rs,
-  lifetime sh [] k rs = (issued k gen0 sh rs, gen_after k gen0 sh rs).
+  lifetime sh [] k rs = ([], issued k gen0 sh rs, gen_after k gen0 sh rs).
 Proof.
   intros. unfold lifetime, issued, gen_after. cbn [recover].
   destruct (issue k gen0 sh rs) as [[ids g] r]. reflexivity.
@@ -521,7 +516,7 @@ Lemma restart_history_eq : forall sh k1 rs1 k2 rs2,
   restart_history sh k1 rs1 k2 rs2 = two_lifetimes sh k1 rs1 k2 rs2.
 Proof.
   intros sh k1 rs1 k2 rs2 Hnz. unfold restart_history, two_lifetimes.
-  rewrite lifetime_fresh. cbn [fst]. unfold lifetime.
+  rewrite lifetime_fresh. unfold lifetime.
   rewrite recovery_reproduces_ids by exact Hnz. unfold issued.
   destruct (issue k2 gen0 sh rs2) as [[ids g] r]. reflexivity.
 Qed.
